@@ -162,6 +162,17 @@ func runC15(r *h.Run) {
 		} else if !errors.Is(o.Err, plugin.ErrProcessNotFound) {
 			r.Violate("wrong-error", ctx+" client="+name, fmt.Sprintf("want ErrProcessNotFound, got %v", o.Err))
 		}
+		// asking the same client again must give the same answer
+		o2 := r.DoNoHang(name+".Start#2", 60*time.Second, ctx, func() (any, error) { return cl.Start() })
+		if !o2.Hung && o2.Err == nil {
+			r.Violate("reattached-to-nothing", ctx+" client="+name+" second-start", "the second Start on a client whose reattach failed succeeded")
+		}
+		if rc := cl.ReattachConfig(); rc != nil && o2.Err != nil {
+			r.Violate("reattached-to-nothing", ctx+" client="+name+" reattach-config", "a client whose reattach failed hands out a ReattachConfig")
+		}
+		if p := cl.Protocol(); p != plugin.ProtocolInvalid {
+			r.Violate("reattached-to-nothing", ctx+" client="+name+" protocol", fmt.Sprintf("a client whose reattach failed reports protocol %q", p))
+		}
 	}
 	bystanderAlive := func(when string) {
 		if by != nil && !by.Alive() {
